@@ -1,10 +1,10 @@
 package main
 
 import (
-	"math/big"
 	"fmt"
 	"go/token"
 	"go/types"
+	"math/big"
 	"strings"
 
 	"golang.org/x/tools/go/ssa"
